@@ -141,6 +141,32 @@ pub fn run(ctx: &Ctx, rep: &mut Report) {
                             rep.violation("respelling-different-node", &format!("{:?} and {:?} denote the same location but canonicalise to {:?} and {:?}", base, v, base, c), J::obj().with("case", J::i(idx)).with("path", J::s(&v)));
                         }
                     }
+                    // the same two spellings written in a manifest: as output of one statement, as input of
+                    // another and as default target they must be one node (the loader's own resolution)
+                    if rng.chance(1, 3) && !base.is_empty() && ncomponents(&v) <= 120 && !s.contains('\0') && !s.contains('\n') {
+                        let text = format!(
+                            "build {}: phony\nbuild loader_probe: phony {} {}\ndefault {}\n",
+                            crate::ap::esc_path(&v),
+                            crate::ap::esc_path(&s),
+                            crate::ap::esc_path(&base),
+                            crate::ap::esc_path(&s)
+                        );
+                        let bytes = text.clone().into_bytes();
+                        if let Ok(Ok(d)) = guarded(move || n2::load::verif_load("build.ninja", Some(bytes)).map_err(|e| e.to_string())) {
+                            rep.count("loader_spelling_probes", 1);
+                            let probe = d.builds.iter().find(|b| b.outs.iter().any(|o| o == "loader_probe"));
+                            let producer_out = d.builds.first().and_then(|b| b.outs.first().cloned());
+                            let mut names: Vec<String> = Vec::new();
+                            if let Some(p) = probe {
+                                names.extend(p.ins.iter().cloned());
+                            }
+                            names.extend(producer_out);
+                            names.extend(d.defaults.iter().cloned());
+                            if names.iter().any(|n| *n != base) {
+                                rep.violation("manifest-spellings-different-nodes", &format!("manifest {:?}: the spellings resolve to {:?}, one node {:?} expected", text, names, base), J::obj().with("case", J::i(idx)).with("manifest", J::s(&text)));
+                            }
+                        }
+                    }
                 }
             }
         }
